@@ -1,9 +1,9 @@
 """C14 - SimpleLoop feeds exact time deltas and stops cleanly on Quit."""
-from harness.loop_common import (gen, run, encode, shrink, mutate, nontrivial,  # noqa: F401
-                                 stats)
+from harness.loop_common import (gen, run, shrink, mutate, nontrivial, stats)  # noqa: F401
+from harness.loop_common import encode_r as encode  # noqa: F401
 
 ID = 'C14'
-COQ_MODULE = 'Desper.Loop.C14Model'
+COQ_MODULE = 'Desper.Loop.R14Model'
 CASE_TYPE = 'C14_case'
 VERDICT = 'C14_verdict'
 PROPS_FILE = 'theories/Props/C14.v'
@@ -23,6 +23,6 @@ TRUSTED = [
     'component and processors; world instances identified by load order',
     'binary64 subtraction of the dyadic readings fed is exact (dt*8 is checked integral)',
 ]
-ASSUMPTIONS = ['callbacks of the doubles only log (they neither raise nor toggle dispatching)',
-               'a frame that quits or raises is the last frame of its start script']
+ASSUMPTIONS = ['the listener callbacks act only through the scripted one-shot reactions',
+               'poke callbacks only log']
 CASE_TIMEOUT = 5
